@@ -141,3 +141,6 @@ func GenName(r *ev.Rand, i int) string {
 		return fmt.Sprintf("n%d_%x", i, r.Bytes(r.Intn(6)))
 	}
 }
+
+// Unlimited is the library's marker for an unlimited maximum dimension.
+const Unlimited uint64 = 0xFFFFFFFFFFFFFFFF
